@@ -170,7 +170,7 @@ func (e Float64Engine) FMAScalar(a Tensor, x interface{}, y Tensor) (retVal Tens
 // Add performs a + b elementwise. Both a and b must have the same shape.
 // Acceptable FuncOpts are: UseUnsafe(), WithReuse(T), WithIncr(T)
 func (e Float64Engine) Add(a Tensor, b Tensor, opts ...FuncOpt) (retVal Tensor, err error) {
-	if a.RequiresIterator() || b.RequiresIterator() {
+	if a.RequiresIterator() || b.RequiresIterator() || !a.DataOrder().HasSameOrder(b.DataOrder()) {
 		return e.StdEng.Add(a, b, opts...)
 	}
 
